@@ -48,7 +48,7 @@ class C15(PropertyCheck):
             "incl. prefixes of each other: image compared byte-exact with the extracted model, parse(serialize(x)) with x); layout "
             "(reference writer with knobs - names after bodies, permuted, gaps with junk, overlapping storage, shared name suffixes, "
             "alignment 1/4/32, junk in ignored fields - accepted by the extracted verified conforms_packb, then fe9_arc::parse compared "
-            "with the intended content); game-file (resources/test/FE9Arc.bin); big (thorough: 65535 files); pack-* (C05: random bytes, "
+            "with the intended content); game-file (resources/test/FE9Arc.bin); big (65535 files); too-many (65536, 70000 files: serialize must answer an error); pack-* (C05: random bytes, "
             "every truncation, boundary values in every field, wrong magic, flips - outcome category, parsed value, allocation bound, "
             "both profiles). Non-trivial = at least one file / input with the pack magic and a full header; distinct = distinct case line.")
     assumptions = [
@@ -113,6 +113,10 @@ class C15(PropertyCheck):
         # ---- many files (implementation + oracle only)
         for (n, bl) in ([(300, 1), (1000, 0), (32768, 0), (65535, 0)] if tier == "quick" else [(300, 1), (1000, 33), (65535, 0), (20000, 3)]):
             cases.append(Case("packbig %d %d" % (n, bl), "big"))
+        # ---- more files than the 16-bit count can hold: serialize must return an error (finding F26, repair 530f18c; before it
+        #      65536 files were written with count 0 and 70000 with count 4464)
+        for n in ((65536, 70000) if tier == "quick" else (65536, 65537, 70000, 131072)):
+            cases.append(Case("packbig %d 0" % n, "too-many"))
         # ---- (d) C05, pack part
         cases += packtotal.total_cases(rng, tier)
         return cases
@@ -148,6 +152,8 @@ class C15(PropertyCheck):
         if kind == "packbig":
             n, bl = int(toks[1]), int(toks[2])
             files = big_files(n, bl)
+            if n > 65535:
+                return None if impl_out == "err" else "serialize accepted %d files (the count field holds 16 bits): %s" % (n, impl_out[:60])
             ot = impl_out.split(" ")
             if ot[0] != "ok" or len(ot) != 3:
                 return "serialize of %d files failed: %s" % (n, impl_out[:80])
@@ -216,7 +222,10 @@ MANIFEST = dict(
     text="Theorems about an executable machine-level Gallina model of fe9_arc::parse / fe9_arc::serialize (Model/Pack.v) against a format "
          "relation conforms_pack written independently of both (Model/PackFormat.v): the parser returns exactly the files of every "
          "conforming image wherever names and bodies lie (both arithmetic modes); serialize of up to 65535 distinct NUL-free names whose image "
-         "fits 32 bits yields a conforming image with exact count, name addresses and sizes and every file on a 32-byte boundary; round trip "
+         "fits 32 bits SUCCEEDS and yields a conforming image with exact count, name addresses and sizes and every file on a 32-byte boundary; "
+         "whatever serialize returns Ok for conforms and parses back (C15_serialize_Ok_conforms, C15_round_trip_of_Ok: no size hypothesis); more than "
+         "65535 files or an image of 4 GiB or more is rejected with an error (C15_serialize_rejects_too_many / _too_large / _big_contents, "
+         "C15_serialize_Ok_iff; finding F26, repaired 530f18c); round trip "
          "as corollary (empty files, empty archive included); a verified boolean checker conforms_packb. All closed under the global context. "
          "The model is tied to /repo on every run: serialize byte-exact and parse(serialize(x)) on generated ordered maps, parse on images of "
          "an independent reference writer with layout knobs that the extracted conforms_packb accepted first, the game file, and (C05 part) "
@@ -224,8 +233,10 @@ MANIFEST = dict(
     note=TB + "Domain of 'Shift-JIS-representable names': names s with decode(encode s) = s - U+00A5, U+203E, U+2212 encode without error "
               "but come back as U+005C, U+007E, U+FF0D and are outside it. "
               "Modelled, not verified: encoding_rs Shift_JIS (A-codec; names travel in encoded form, losslessness checked per name by the "
-              "harness), Cursor / IndexMap (A-std), usize sums in serialize cannot overflow (A-usize). serialize truncates silently above "
-              "65535 files or 4 GiB (`as u16` / `as u32`): stated as hypotheses, outside the property. Defects F7 (todo!() on a wrong "
-              "magic) and F8 (buffer sized by an unchecked field) were repaired in /repo; the model describes the repaired code.",
+              "harness), Cursor / IndexMap (A-std), usize sums in serialize cannot overflow (A-usize). Defects F7 (todo!() on a wrong "
+              "magic), F8 (buffer sized by an unchecked field) and F26 (serialize truncated the count to 16 bits and sizes to 32 bits silently: "
+              "65536 files -> count 0, a file of 2^32 bytes -> size 0; now an error) were repaired in /repo; the model describes the repaired code. "
+              "The 65536 / 70000-file rejections run on the real library in every quick run (stream too-many); the 4 GiB side is proved on the model "
+              "only (the reviewer's probe needs ~9 GiB).",
     technique="Coq proof (format relation + list/codec lemmas, lia) + extracted-model differential check + verified format checker as oracle filter",
     ref="DESIGN.md section 6 (C15), section 2 (C05)")
